@@ -433,3 +433,139 @@ def reordered(m, perm):
         rec["attrs"] = [list(a) for a in rec["attrs"] if a[0] != "tag"] + [["tag", ["L%d" % j]]]
         lines.append(rec)
     return dict(m, lines=lines)
+
+
+# -- exons of one gene / transcript on both strands (one seqid) -----------------------------------------------------------
+def _ids_of(rec, tkey, gkey):
+    t = [v for k, v in rec["attrs"] if k == tkey]
+    g = [v for k, v in rec["attrs"] if k == gkey]
+    return (t[0][0] if t and t[0] else None), (g[0][0] if g and g[0] else None)
+
+
+def make_mixed_strands(rng, m):
+    """Put the subfeature lines of 1..n genes on BOTH strands of their one seqid:
+        "antisense transcript": all lines of one transcript of a gene with >= 2 exon-bearing transcripts go to the other
+                                strand (each transcript consistent, the gene mixed);
+        "trans-spliced":        some but not all subfeature lines of one transcript with >= 2 of them go to the other strand
+                                (transcript and gene mixed).
+    gene/transcript lines of the file keep their columns.  Returns the list of modes made (m["mixed_strands"]) or None."""
+    tkey, gkey, sub = m["tkey"], m["gkey"], m["subfeature"]
+    flip = {"+": "-", "-": "+"}
+    by_gene = {}
+    for rec in m["lines"]:
+        if rec["featuretype"] in ("gene", "transcript"):
+            continue
+        t, g = _ids_of(rec, tkey, gkey)
+        by_gene.setdefault(g, {}).setdefault(t, []).append(rec)
+    made = []
+    genes = sorted(by_gene, key=repr)
+    rng.shuffle(genes)
+    for g in genes:
+        if made and rng.random() < 0.4:
+            continue
+        txs = {t: [r for r in recs if r["featuretype"] == sub and r["strand"] in flip] for t, recs in by_gene[g].items()}
+        bearing = sorted((t for t, ex in txs.items() if ex), key=repr)
+        multi = [t for t in bearing if len(txs[t]) >= 2]
+        modes = (["antisense transcript"] if len(bearing) >= 2 else []) + (["trans-spliced"] if multi else [])
+        if not modes:
+            continue
+        mode = rng.choice(modes)
+        if mode == "antisense transcript":
+            t = rng.choice(bearing)
+            for r in by_gene[g][t]:
+                r["strand"] = flip.get(r["strand"], r["strand"])
+        else:
+            t = rng.choice(multi)
+            ex = txs[t]
+            for r in rng.sample(ex, rng.randrange(1, len(ex))):
+                r["strand"] = flip[r["strand"]]
+        made.append(mode)
+    if not made:
+        return None
+    m["mixed_strands"] = sorted(set(made))
+    return m["mixed_strands"]
+
+
+# -- several lines with ONE primary key (a shared exon_id) naming different transcripts / genes ------------------------------
+DUP_STRATEGIES = ["replace", "merge", "create_unique", "warning"]
+DUP_KEY = "exon_id"
+
+
+def make_dupkeys(rng, m, same_columns=True):
+    """Give 1-2 subfeature lines an exon_id attribute (id_spec {subfeature: 'exon_id'} makes it their primary key) and add,
+    for each, 1-2 more lines with the SAME exon_id under ANOTHER transcript (of the same gene, or of another gene on the same
+    seqid and strand): the exon shared between transcripts, listed once per transcript.  The added lines have the columns of
+    the first one (same_columns; what merge_strategy='merge' needs) or other coordinates.  Both transcripts keep at least one
+    more ordinary line with a key of its own, so that the (gene, transcript) link never depends on a duplicated line alone.
+    Some other subfeature lines get unique exon_ids.  Returns m["dupkeys"] = {"attr", "groups": [[tag, ...] in file order]}
+    (tags are renumbered) or None when the file has no two such transcripts."""
+    tkey, gkey, sub = m["tkey"], m["gkey"], m["subfeature"]
+    lines = m["lines"]
+    ordinary = {}      # (t, g) -> ordinary lines
+    for rec in lines:
+        if rec["featuretype"] in ("gene", "transcript"):
+            continue
+        ordinary.setdefault(_ids_of(rec, tkey, gkey), []).append(rec)
+    used = set()       # id(rec) of lines in a group
+    groups = []
+    n = 0
+    for _ in range(rng.choice([1, 1, 2])):
+        srcs = [(tg, r) for tg, recs in ordinary.items() if len(recs) >= 2 for r in recs
+                if r["featuretype"] == sub and id(r) not in used]
+        rng.shuffle(srcs)
+        for (t, g), r in srcs:
+            targets = [tg for tg, recs in ordinary.items() if tg[0] != t and sum(1 for x in recs if id(x) not in used) >= 1
+                       and all(x["seqid"] == r["seqid"] for x in recs if x["featuretype"] == sub)
+                       and all(x["strand"] == r["strand"] for x in recs if x["featuretype"] == sub)
+                       and any(x["featuretype"] == sub for x in recs)]
+            # the source transcript keeps another ordinary line outside every group
+            if not targets or sum(1 for x in ordinary[(t, g)] if id(x) not in used and x is not r) < 1:
+                continue
+            same_gene = [tg for tg in targets if tg[1] == g]
+            picks = rng.sample(targets, min(len(targets), rng.choice([1, 1, 2])))
+            if same_gene and rng.random() < 0.5:
+                picks = [rng.choice(same_gene)]
+            n += 1
+            eid = "exn:%d" % n
+            r["attrs"].append([DUP_KEY, [eid]])
+            group = [r]
+            used.add(id(r))
+            for (t2, g2) in picks:
+                c = dict(r, attrs=[[k, [g2] if k == gkey else [t2] if k == tkey else list(v)] for k, v in r["attrs"]])
+                if not same_columns and rng.random() < 0.6:
+                    s = int(r["start"]) + rng.randrange(-40, 400)
+                    c["start"], c["end"] = str(max(1, s)), str(max(1, s) + rng.randrange(0, 300))
+                lines.insert(rng.randrange(len(lines) + 1), c)
+                ordinary[(t2, g2)].append(c)
+                used.add(id(c))
+                group.append(c)
+            groups.append(group)
+            break
+    if not groups:
+        return None
+    k = 0
+    for rec in lines:
+        if rec["featuretype"] == sub and id(rec) not in used and rng.random() < 0.3:
+            k += 1
+            rec["attrs"].append([DUP_KEY, ["exu:%d" % k]])
+    for i, rec in enumerate(lines):
+        rec["attrs"] = [a for a in rec["attrs"] if a[0] != "tag"] + [["tag", ["L%d" % i]]]
+    pos = {id(rec): i for i, rec in enumerate(lines)}
+    m["dupkeys"] = {"attr": DUP_KEY, "same_columns": bool(same_columns),
+                    "groups": [["L%d" % i for i in sorted(pos[id(r)] for r in grp)] for grp in groups]}
+    return m["dupkeys"]
+
+
+def surviving(m, strategy):
+    """Indices of the lines that are stored features of their own after an import with the given merge_strategy, for a
+    model made by make_dupkeys: 'replace' keeps the LAST line of each primary key, 'warning' the FIRST; 'merge' (one feature
+    carrying the attributes of all of them) and 'create_unique' (every line stored, later ones under a new key) keep all."""
+    lines = m["lines"]
+    drop = set()
+    for grp in m["dupkeys"]["groups"]:
+        idx = sorted(int(t[1:]) for t in grp)
+        if strategy == "replace":
+            drop.update(idx[:-1])
+        elif strategy == "warning":
+            drop.update(idx[1:])
+    return [i for i in range(len(lines)) if i not in drop]
